@@ -61,7 +61,7 @@ def run(ctx):
     rules.append(r1)
     r2 = Rule("C08", "C08.R2", "each choice is shown its own label", floor=1,
               necessary="text ids numbered over a different sequence than the items' ids show the next row's label")
-    _take(r2, r07, "C07.R1", lambda c: c == "choice texts under their own id")
+    _take(r2, r07, "C07.R1", lambda c: c == "choice texts under their own id" or c.startswith("search() in-line items"))
     rules.append(r2)
     r3 = Rule("C08", "C08.R3", "missing entries are the '-' placeholder, existing ones are untouched (all presence patterns)", floor=1,
               necessary="a language without an entry would fall back to another language's text")
@@ -76,6 +76,7 @@ def run(ctx):
               necessary="two different resolutions of the default language file the unsuffixed texts under a language that is not the default")
     _take(r5, r11, "C11.R3", lambda c: c.startswith("grouping language["))
     _take(r5, r11, "C11.R6", lambda c: True)
+    _take(r5, r07, "C07.R2b", lambda c: c.endswith(":default language"))
     rules.append(r5)
     rules.append(_loop_template_rule(ctx))
     rules.append(_recollect_rule(ctx))
